@@ -4,6 +4,7 @@ Modelica parse Tree to AST tree.
 """
 from __future__ import absolute_import, division, print_function, unicode_literals
 
+import contextlib
 import copy
 import hashlib
 import logging
@@ -1010,109 +1011,123 @@ def parse(
     db_folder.mkdir(parents=True, exist_ok=True)
 
     full_db_path = db_folder / cache_db
-    conn = sqlite3.connect(full_db_path, isolation_level=None)
+    conn = None
+    try:
+        conn = sqlite3.connect(full_db_path, isolation_level=None)
 
-    cursor = conn.cursor()
+        cursor = conn.cursor()
 
-    if not hasattr(parse, "initialized_dbs") or full_db_path not in parse.initialized_dbs:
-        # Check if the database file is corrupt
-        try:
-            cursor.execute("PRAGMA integrity_check;")
-            result = cursor.fetchone()
-            if result != ("ok",):
-                raise sqlite3.DatabaseError("Database integrity check failed")
-        except sqlite3.DatabaseError:
-            conn.close()
+        if not hasattr(parse, "initialized_dbs") or full_db_path not in parse.initialized_dbs:
+            # Check if the database file is corrupt
+            try:
+                cursor.execute("PRAGMA integrity_check;")
+                result = cursor.fetchone()
+                if result != ("ok",):
+                    raise sqlite3.DatabaseError("Database integrity check failed")
+            except sqlite3.DatabaseError:
+                conn.close()
 
-            logger.warning("Model cache database is corrupt, recreating...")
-            os.remove(full_db_path)
+                logger.warning("Model cache database is corrupt, recreating...")
+                os.remove(full_db_path)
 
-            conn = sqlite3.connect(full_db_path, isolation_level=None)
-            cursor = conn.cursor()
+                conn = sqlite3.connect(full_db_path, isolation_level=None)
+                cursor = conn.cursor()
 
-        _check_database_structure(conn)
+            _check_database_structure(conn)
 
-        # Prune the database of entries not hit recently
-        cursor.execute("BEGIN TRANSACTION;")
-        cutoff_time = _microseconds_since_epoch(timedelta(days=-cache_expiration_days))
-        cursor.execute("DELETE FROM models WHERE last_hit < ?", (cutoff_time,))
-        # Sometimes Windows time resolution is a bit coarse, so we make
-        # sure that if we update the last_prune time, it is actually newer
-        # than the previous one.
-        cursor.execute(
-            "UPDATE metadata SET value = max(value + 1, ?) WHERE key = ?",
-            (_microseconds_since_epoch(), "last_prune"),
-        )
-
-        conn.commit()
-
-        if hasattr(parse, "initialized_dbs"):
-            parse.initialized_dbs.add(full_db_path)
-        else:
-            parse.initialized_dbs = {full_db_path}
-
-    # Check if the txt exists in the database
-    txt_hash = _calculate_txt_hash(txt)
-
-    cursor.execute("BEGIN TRANSACTION;")
-    cursor.execute(
-        "SELECT last_hit, data FROM models WHERE txt_hash=? AND pymoca_version=?",
-        (txt_hash, pymoca_version),
-    )
-    result = cursor.fetchone()
-    conn.commit()
-
-    tree = None
-
-    if result:
-        logger.debug(f"Model with hash '{txt_hash}' ({pymoca_version}) found in cache")
-        last_hit, pickled_data = result
-
-        yesterday = _microseconds_since_epoch(timedelta(days=-1))
-
-        if always_update_last_hit or last_hit < yesterday:
+            # Prune the database of entries not hit recently
             cursor.execute("BEGIN TRANSACTION;")
+            cutoff_time = _microseconds_since_epoch(timedelta(days=-cache_expiration_days))
+            cursor.execute("DELETE FROM models WHERE last_hit < ?", (cutoff_time,))
             # Sometimes Windows time resolution is a bit coarse, so we make
-            # sure that if we update the last_hit time, it is actually newer
+            # sure that if we update the last_prune time, it is actually newer
             # than the previous one.
             cursor.execute(
-                "UPDATE models SET last_hit = max(last_hit + 1, ?) WHERE txt_hash = ? "
-                "AND pymoca_version = ?",
-                (_microseconds_since_epoch(), txt_hash, pymoca_version),
+                "UPDATE metadata SET value = max(value + 1, ?) WHERE key = ?",
+                (_microseconds_since_epoch(), "last_prune"),
             )
-            conn.commit()
-        try:
-            tree = pickle.loads(pickled_data)
-        except Exception:
-            # A damaged or outdated entry can fail in many ways besides
-            # UnpicklingError (EOFError on a truncated entry, ImportError or
-            # AttributeError when a pickled class is gone, ...).
-            logger.warning(f"Model with hash '{txt_hash}' ({pymoca_version}) failed to unpickle")
-    else:
-        logger.debug(f"Model with hash '{txt_hash}' ({pymoca_version}) not in cache")
 
-    if tree is None:
-        # We get here if we didn't find anything in the cache, or if the
-        # unpickling of the cache failed
-        try:
-            tree = _parse(txt)
-        except Exception:
-            conn.close()
-            raise
-
-        # Don't cache None that _parse() returns on syntax errors
-        if tree is not None:
-            pickled_data = pickle.dumps(tree)
-
-            # Note that we do an 'INSERT OR REPLACE' because concurrent access
-            # might mean two processes/threads try to insert an entry
-            cursor.execute("BEGIN TRANSACTION;")
-            cursor.execute(
-                "INSERT OR REPLACE INTO models (txt_hash, pymoca_version, data, last_hit) VALUES (?, ?, ?, ?)",
-                (txt_hash, pymoca_version, pickled_data, _microseconds_since_epoch()),
-            )
             conn.commit()
 
-    conn.close()
+            if hasattr(parse, "initialized_dbs"):
+                parse.initialized_dbs.add(full_db_path)
+            else:
+                parse.initialized_dbs = {full_db_path}
 
-    return tree
+        # Check if the txt exists in the database
+        txt_hash = _calculate_txt_hash(txt)
+
+        cursor.execute("BEGIN TRANSACTION;")
+        cursor.execute(
+            "SELECT last_hit, data FROM models WHERE txt_hash=? AND pymoca_version=?",
+            (txt_hash, pymoca_version),
+        )
+        result = cursor.fetchone()
+        conn.commit()
+
+        tree = None
+
+        if result:
+            logger.debug(f"Model with hash '{txt_hash}' ({pymoca_version}) found in cache")
+            last_hit, pickled_data = result
+
+            yesterday = _microseconds_since_epoch(timedelta(days=-1))
+
+            if always_update_last_hit or last_hit < yesterday:
+                cursor.execute("BEGIN TRANSACTION;")
+                # Sometimes Windows time resolution is a bit coarse, so we make
+                # sure that if we update the last_hit time, it is actually newer
+                # than the previous one.
+                cursor.execute(
+                    "UPDATE models SET last_hit = max(last_hit + 1, ?) WHERE txt_hash = ? "
+                    "AND pymoca_version = ?",
+                    (_microseconds_since_epoch(), txt_hash, pymoca_version),
+                )
+                conn.commit()
+            try:
+                tree = pickle.loads(pickled_data)
+            except Exception:
+                # A damaged or outdated entry can fail in many ways besides
+                # UnpicklingError (EOFError on a truncated entry, ImportError or
+                # AttributeError when a pickled class is gone, ...).
+                logger.warning(f"Model with hash '{txt_hash}' ({pymoca_version}) failed to unpickle")
+        else:
+            logger.debug(f"Model with hash '{txt_hash}' ({pymoca_version}) not in cache")
+
+        if tree is None:
+            # We get here if we didn't find anything in the cache, or if the
+            # unpickling of the cache failed
+            try:
+                tree = _parse(txt)
+            except Exception:
+                conn.close()
+                raise
+
+            # Don't cache None that _parse() returns on syntax errors
+            if tree is not None:
+                pickled_data = pickle.dumps(tree)
+
+                # Note that we do an 'INSERT OR REPLACE' because concurrent access
+                # might mean two processes/threads try to insert an entry
+                cursor.execute("BEGIN TRANSACTION;")
+                cursor.execute(
+                    "INSERT OR REPLACE INTO models (txt_hash, pymoca_version, data, last_hit) VALUES (?, ?, ?, ?)",
+                    (txt_hash, pymoca_version, pickled_data, _microseconds_since_epoch()),
+                )
+                conn.commit()
+
+        conn.close()
+
+        return tree
+    except sqlite3.DatabaseError as e:
+        # The cache is only an optimisation. Whatever is wrong with the database
+        # (damaged, replaced or removed after this process checked it, locked by
+        # another user for too long), parse without it, and forget that we
+        # checked it so that the next call checks (and if need be recreates) it.
+        logger.warning(f"Model cache database error ({e}), parsing without cache")
+        if hasattr(parse, "initialized_dbs"):
+            parse.initialized_dbs.discard(full_db_path)
+        if conn is not None:
+            with contextlib.suppress(sqlite3.Error):
+                conn.close()
+        return _parse(txt)
